@@ -144,19 +144,43 @@ def main(argv=None):
     obs = m.obligations(args.tier)
     sel = [(i, ob) for i, ob in enumerate(obs)
            if not args.only or args.only in ob['name']]
-    # order: longest first for packing; seed only rotates ties
-    order = sorted(sel, key=lambda x: (-x[1].get('timeout', 30),
-                                       (x[0] + seed) % max(1, len(sel))))
+    # quick: longest first for packing (seed only rotates ties).
+    # thorough: listing order (shallow to deep) under a wall-clock budget:
+    # obligations not started when the budget is used up are reported as
+    # "not-run(budget)" - never as confirmed.
+    budget = None
+    if args.tier == 'thorough':
+        budget = float(os.environ.get('VERIF_WALL_BUDGET', '1500'))
+        order = list(sel)
+    else:
+        order = sorted(sel, key=lambda x: (-x[1].get('timeout', 30),
+                                           (x[0] + seed) % max(1, len(sel))))
     results = {}
+    pending = list(order)
+    running = {}
     with cf.ThreadPoolExecutor(max_workers=args.jobs) as ex:
-        futs = {}
-        for i, ob in order:
-            to = ob.get('timeout', 30) * args.scale
-            futs[ex.submit(run_obligation, mod, args.tier, i, ob,
-                           to * 1.6 + 90)] = (i, ob)
-        for fut in cf.as_completed(futs):
-            i, ob = futs[fut]
-            results[i] = fut.result()
+        while pending or running:
+            while pending and len(running) < args.jobs:
+                if budget is not None and time.time() - t0 > budget:
+                    for i, ob in pending:
+                        results[i] = {'verdict': 'not-run(budget)',
+                                      'paths': 0, 'failures': [],
+                                      'errors': []}
+                    pending = []
+                    break
+                i, ob = pending.pop(0)
+                to = ob.get('timeout', 30) * args.scale
+                if budget is not None:
+                    to = min(to, float(os.environ.get('VERIF_SLICE_CAP',
+                                                      '900')))
+                running[ex.submit(run_obligation, mod, args.tier, i, ob,
+                                  to * 1.6 + 90)] = (i, ob)
+            if not running:
+                break
+            done, _ = cf.wait(list(running), return_when=cf.FIRST_COMPLETED)
+            for fut in done:
+                i, ob = running.pop(fut)
+                results[i] = fut.result()
 
     known = [k for k in load_known() if k['property'] == pid]
     violations, known_hits, harness_errors, inconclusive = [], [], [], []
@@ -236,7 +260,8 @@ def main(argv=None):
         if r.get('crash'):
             entry['crash'] = r['crash']
             crashes.append({'obligation': ob['name'], **r['crash']})
-        if entry['verdict'].startswith('inconclusive'):
+        if entry['verdict'].startswith('inconclusive') or \
+                entry['verdict'].startswith('not-run'):
             inconclusive.append(ob['name'])
         ob_report.append(entry)
 
@@ -293,6 +318,9 @@ def main(argv=None):
             'harness_errors': harness_errors,
             'worker_crashes': crashes[:5],
             'partial_run_filter': args.only or None,
+            'wall_budget_s': budget,
+            'not_run_for_budget': sum(
+                1 for e in ob_report if e['verdict'] == 'not-run(budget)'),
         },
         'assumptions': getattr(m, 'ASSUMPTIONS', []) + [
             'CrossHair 0.0.110 models of str/re/list/dict and z3 are trusted '
@@ -306,11 +334,12 @@ def main(argv=None):
         json.dump(evidence, f, indent=1, default=repr)
 
     print(f'{pid} tier={args.tier}: {confirmed}/{len(ob_report)} obligations '
-          f'confirmed, {len(inconclusive)} inconclusive, paths={tot["paths"]} '
+          f'confirmed, {len(inconclusive)} inconclusive/not-run, '
+          f'paths={tot["paths"]} '
           f'validated={tot["validated"]} e1={tot["e1_queries"]} '
           f'solver={tot["solver_s"]:.1f}s wall={wall}s')
     for e in ob_report:
-        if e['verdict'] != 'confirmed':
+        if e['verdict'] != 'confirmed' and e['verdict'] != 'not-run(budget)':
             print(f"  {e['name']}: {e['verdict']} paths={e['paths']}")
     if harness_errors:
         for h in harness_errors[:5]:
